@@ -3,8 +3,10 @@
 //! This commit will remove functions, data, etc, that are not referenced
 //! internally and can be safely removed.
 
+use crate::ir::{dfs_in_order, RefFunc, Visitor};
 use crate::map::IdHashSet;
 use crate::passes::used::Used;
+use crate::{ConstExpr, ElementItems, ElementKind, ExportItem, Function, GlobalKind};
 use crate::{ImportKind, Module};
 use id_arena::Id;
 
@@ -49,6 +51,67 @@ pub fn run(m: &mut Module) {
     for id in unused(&used.funcs, m.funcs.iter().map(|t| t.id())) {
         m.funcs.delete(id);
     }
+
+    declare_referenced_funcs(m);
+}
+
+/// A `ref.func` instruction is only valid if its function is declared outside
+/// of function bodies: by an export, an element segment or the initializer of
+/// a global. The segments and globals that did so may have just been removed,
+/// so declare the functions that would otherwise be left undeclared in a new
+/// declared element segment.
+fn declare_referenced_funcs(m: &mut Module) {
+    struct RefFuncs(IdHashSet<Function>);
+
+    impl<'instr> Visitor<'instr> for RefFuncs {
+        fn visit_ref_func(&mut self, instr: &RefFunc) {
+            self.0.insert(instr.func);
+        }
+    }
+
+    let mut referenced = RefFuncs(IdHashSet::default());
+    for (_, func) in m.funcs.iter_local() {
+        dfs_in_order(&mut referenced, func, func.entry_block());
+    }
+    let mut undeclared = referenced.0;
+    if undeclared.is_empty() {
+        return;
+    }
+
+    for export in m.exports.iter() {
+        if let ExportItem::Function(f) = export.item {
+            undeclared.remove(&f);
+        }
+    }
+    for elem in m.elements.iter() {
+        match &elem.items {
+            ElementItems::Functions(funcs) => {
+                for f in funcs {
+                    undeclared.remove(f);
+                }
+            }
+            ElementItems::Expressions(_, exprs) => {
+                for expr in exprs {
+                    if let ConstExpr::RefFunc(f) = expr {
+                        undeclared.remove(f);
+                    }
+                }
+            }
+        }
+    }
+    for global in m.globals.iter() {
+        if let GlobalKind::Local(ConstExpr::RefFunc(f)) = &global.kind {
+            undeclared.remove(f);
+        }
+    }
+    if undeclared.is_empty() {
+        return;
+    }
+
+    let mut funcs: Vec<_> = undeclared.into_iter().collect();
+    funcs.sort();
+    m.elements
+        .add(ElementKind::Declared, ElementItems::Functions(funcs));
 }
 
 fn unused<T>(used: &IdHashSet<T>, all: impl Iterator<Item = Id<T>>) -> Vec<Id<T>> {
